@@ -222,7 +222,7 @@ def r5(ctx, prog):
             if lf and any(st and st['k'] == 'CXXDeleteExpr' for st in lf.stmts):
                 origins = [own.capture_origin(f, c['d']) for c in lam.get('caps', ()) if not c.get('this') and own.pointee(c.get('ct', ''))]
                 deferred.append((lam, origins))
-        ok = not direct and bool(deferred) and all(all(o in ('swap-out', 'cabinet-free') for o in origins) and origins for lam, origins in deferred)
+        ok = not direct and bool(deferred) and all(all(o in own.OWNED for o in origins) and origins for lam, origins in deferred)
         ctx.ob('C06.R5', '%s|deferred-delete' % name, ok,
                'destroys through %d deferred task(s); captured pointers taken out by %s' % (len(deferred), sorted({o for l, os_ in deferred for o in os_})) if ok else
                ('synchronous delete of a %s at %s' % (direct[0].get('cdt'), f.loc(direct[0]['i'])) if direct else
